@@ -32,6 +32,8 @@ ASSUMPTIONS = [
 ]
 
 LENGTHS = (0, 1, 2, 3, 4, 5, 124, 125, 126, 127, 128, 65534, 65535, 65536, 65537)
+# payload sizes whose ENCODED frame is an exact multiple of the 64 KiB buffer size (2+8+4 header bytes; 2+2+4 below 64 KiB)
+FRAME_MULTIPLES = (65528, 131058, 196594)
 MASKS = (None, b'\x00\x00\x00\x00', b'\xff\xff\xff\xff', b'\x01\x02\x03\x04', b'\xff\x00\x00\x00',
          b'\x00\xff\x00\x00', b'\x00\x00\xff\x00', b'\x00\x00\x00\xff', b'\x80\x7f\x55\xaa')
 
@@ -209,6 +211,14 @@ def cases(tier, seed, i, n):
             yield dict(kind='threads', prog=prog, mode='dfs', max_runs=400 if tier == 'quick' else 4000)
             for r in range(6 if tier == 'quick' else 200):
                 yield dict(kind='threads', prog=prog, rseed=rnd.randrange(1 << 30), count=10, prob=(0.05, 0.15, 0.4)[r % 3])
+        # (1e) frames whose encoded size is an exact multiple of the 64 KiB buffer (and one byte around it)
+        for mode in modes[:2]:
+            calls = []
+            for n in FRAME_MULTIPLES:
+                for d in (-1, 0, 1):
+                    calls.append(dict(name='send_binary', args=[bytes((k * 31 + n) & 0xff for k in range(n + d))], kw=dict(compress=False)))
+            calls.append(dict(name='send_text', args=['x' * FRAME_MULTIPLES[1]], kw=dict(compress=False)))
+            yield dict(kind='hist', mode=mode, mask=None, calls=calls)
         # (2) lane sweep: all 256 byte values at every lane offset, every mask
         for mask in MASKS:
             for mode in modes[:2]:
